@@ -49,6 +49,7 @@ KIND = tr.KIND
 DISP_IMPORTS = ['Coq.Lists.List', 'Coq.Bool.Bool', 'SV.Rot.RotDispatch', 'SV.Gen.RotDispatch_gen']
 REIFY_IMPORTS = ['Coq.Lists.List', 'Coq.Bool.Bool', 'SV.Rot.RotReify', 'SV.Gen.RotReified_gen']
 GJ_IMPORTS = ['Coq.Lists.List', 'Coq.Bool.Bool', 'SV.Rot.RotGJ', 'SV.Gen.RotInverse_gen']
+GJT_IMPORTS = ['Coq.Lists.List', 'Coq.Bool.Bool', 'Coq.QArith.QArith', 'SV.Rot.RotGJ', 'SV.Rot.RotGJTotal', 'SV.Gen.RotInverse_gen']
 TOL = 1e-9
 GIMBAL = 0.001
 
@@ -813,7 +814,7 @@ def run(ck: Ck) -> None:
     A = tr.analyse() if (ok_f and ok_d) else None
     built = False
     # 1. models and generated objects (definitions only: these compile whatever the source computes)
-    models = ck.build(['Rot/RotGJ.vo', 'Rot/RotGJFloat.vo', 'Rot/RotDispatch.vo', 'Rot/RotReify.vo']
+    models = ck.build(['Rot/RotGJ.vo', 'Rot/RotGJTotal.vo', 'Rot/RotGJFloat.vo', 'Rot/RotDispatch.vo', 'Rot/RotReify.vo']
                       + (['Gen/RotFormulas_gen.vo', 'Gen/RotDispatch_gen.vo'] if A is not None else [])
                       + (['Gen/RotReified_gen.vo'] if ok_r else [])
                       + (['Gen/RotInverse_gen.vo'] if ok_i else []))
@@ -842,22 +843,31 @@ def run(ck: Ck) -> None:
             'mat_mul_alias_safe': 'polys_eqb mat_mul_self_polys mat_mul_ss_polys',
         }, name='reify')
     if ok_i and models:
-        ck.instance_obligations(GJ_IMPORTS, {
+        # gj_prog_ok: what inverse() returns when it returns; gj_total_ok (Rot/RotGJTotal.v, interval / determinant abstract
+        # interpretation): it RETURNS on every rotation
+        ck.instance_obligations(GJT_IMPORTS, {
             'inverse_left_block_is_self': 'init_l_ok inverse_prog',
             'inverse_right_block_starts_as_identity': 'init_r_ok inverse_prog',
             'inverse_result_is_right_block': 'out_ok inverse_prog',
             'inverse_indexes_in_range': 'ops_in_range inverse_prog',
             'inverse_left_block_becomes_identity': 'left_becomes_identity inverse_prog',
             'inverse_prog_ok': 'gj_prog_ok inverse_prog',
+            'inverse_pivot_searches_succeed_on_rotations': 'pivots_found inverse_prog',
+            'inverse_divisors_nonzero_on_rotations': 'divisors_nonzero inverse_prog',
+            'inverse_threshold_tests_pass_on_rotations': 'thresholds_passed inverse_prog',
+            'inverse_total_on_rotations': 'gj_total_ok inverse_prog',
         }, name='gj')
-        vals = ck.coq_eval(GJ_IMPORTS, ['abs_run (gp_ops inverse_prog) top3'], name='gjabs')
+        vals = ck.coq_eval(GJT_IMPORTS, ['abs_run (gp_ops inverse_prog) top3', 'total_trace inverse_prog',
+                                         'abs2_fail (gp_ops inverse_prog) rot_init'], name='gjabs')
         if vals is not None:
             ck.extra['inverse_left_block_final_pattern'] = vals[0]
+            ck.extra['inverse_final_intervals_on_rotations'] = ' '.join(vals[1].split())
+            ck.extra['inverse_first_operation_not_shown_to_succeed'] = ' '.join(vals[2].split())
         ck.extra['inverse_program'] = [tri.coq_op(o) for o in tri.analyse()['P']['ops']]
     # 3. the proofs about the generated formulas
     if A is not None and models:
         core = ck.build(['Rot/RotAlgebra.vo', 'Rot/RotAliasProofs.vo', 'Rot/RotEulerProofs.vo', 'Rot/RotDispatchProofs.vo',
-                         'Rot/RotGJProofs.vo', 'Rot/RotGJExample.vo'] + (['Rot/RotReifyProofs.vo'] if ok_r else []))
+                         'Rot/RotGJProofs.vo', 'Rot/RotGJTotalProofs.vo', 'Rot/RotGJExample.vo'] + (['Rot/RotReifyProofs.vo'] if ok_r else []))
         built = core and ck.build(['Props/C04.vo'])
         if built:
             theorems_with_axioms(ck)
